@@ -452,6 +452,46 @@ def rule_bracket(ctx, prop):
                                   f"without testing whether the child is a long-bracket string (and spacing it): "
                                   f"`[ [[s]] ]` is printed as `[[[s]]]`, which does not lex", f.loc(s["sp"]), cfg)
         rep.floor("constructors of a bracketed child", n, 2 if "luau" not in __import__("extract").FEATURES[cfg] else 3, cfg)
+        # (b) the predicate looks at the *first token* of the child: kinds whose leftmost child can be a long-bracket
+        # string must recurse into that child (Lua grammar: lhs of a binary operator, operand of a type assertion,
+        # content of parentheses that may be removed)
+        LEFTMOST = {"BinaryOperator": "lhs", "TypeAssertion": "expression", "Parentheses": "expression"}
+        ev = set(prog.variants(EXPR, "stylua_lib"))
+        for pn in sorted(preds):
+            pf = prog.fn("stylua_lib", pn)
+            pis = [i for i in range(1, pf.argc + 1) if strip_ty(pf.locals[i]) == EXPR]
+            if not pis:
+                continue
+            pi = pis[0]
+            for K, fld in LEFTMOST.items():
+                if K not in ev:
+                    continue
+                try:
+                    res = Enumerator(pf, {f"arg:{pi}": K}).run()
+                except TooManyPaths:
+                    rep.anchor(False, f"{pn}[{K}]: too many paths", cfg)
+                    continue
+                outs = set()
+                for st in res:
+                    v = st.vals.get(0)
+                    if v and v[0] == "const":
+                        outs.add(bool(v[1]))
+                    elif v and v[0] == "callres":
+                        t = pf.blocks[v[1]]["term"]
+                        ap = access_path(pf, t["args"][0]) if t["args"] else None
+                        if callee(t) == pn and ap == (("arg", pi), (("v", K), ("f", fld))):
+                            outs.add("rec")
+                        else:
+                            outs.add("?")
+                    else:
+                        outs.add("?")
+                ok = outs <= {"rec", True} and bool(outs)
+                rep.inst(f"stylua_lib::{pn} {K} -> first token of .{fld}", {"kind": K, "result": sorted(map(str, outs))}, cfg, ok=ok)
+                if not ok:
+                    rep.violation(f"stylua_lib::{pn} first-token-not-followed {K}.{fld}",
+                                  f"{pn} answers {sorted(map(str, outs))} for {K}: it does not look at the first token of "
+                                  f"`{fld}`, so `[ [[s]] .. x ]` / `[ ([[s]]) ]` is printed as `[[[s]] ..` which does not lex",
+                                  pf.loc(), cfg)
     return rep
 
 
